@@ -2,6 +2,7 @@ package c04
 
 import (
 	"fmt"
+	"sort"
 	"verifharness/corpus"
 	"verifharness/mut"
 	"verifharness/ref/boxwalk"
@@ -311,6 +312,78 @@ func fieldSweep() []corpus.Seed {
 				}
 			}
 			break
+		}
+	}
+	return out
+}
+
+// inflate sets the size field of a leaf to a huge value and adds the same
+// surplus to every ancestor, so that the declared sizes stay consistent with
+// each other and only the data is missing: per container type (the smallest
+// box seed with that root), up to 6 leaves, 3 values.
+func inflate() []corpus.Seed {
+	var out []corpus.Seed
+	best := map[string]*corpus.Seed{}
+	for i := range cor.Boxes {
+		b := &cor.Boxes[i]
+		es := mut.Parse(b.Data)
+		if len(es) != 1 || !es[0].Container || len(b.Data) > 4096 {
+			continue
+		}
+		if cur := best[b.Type]; cur == nil || len(b.Data) < len(cur.Data) {
+			best[b.Type] = b
+		}
+	}
+	var types []string
+	for t := range best {
+		types = append(types, t)
+	}
+	sort.Strings(types)
+	for _, t := range types {
+		sd := best[t]
+		// paths (child indices) of the leaves
+		var paths [][]int
+		var walk func(e *mut.E, p []int)
+		walk = func(e *mut.E, p []int) {
+			if !e.Container {
+				paths = append(paths, append([]int{}, p...))
+				return
+			}
+			for i, c := range e.Children {
+				walk(c, append(p, i))
+			}
+		}
+		walk(mut.Parse(sd.Data)[0], nil)
+		if len(paths) > 6 {
+			paths = append(paths[:3:3], paths[len(paths)-3:]...)
+		}
+		for _, path := range paths {
+			if len(path) == 0 {
+				continue
+			}
+			for _, v := range []uint64{1 << 28, 1 << 31, 0xfffffff0} {
+				es := mut.Parse(sd.Data)
+				chain := []*mut.E{es[0]}
+				for _, i := range path {
+					chain = append(chain, chain[len(chain)-1].Children[i])
+				}
+				leaf := chain[len(chain)-1]
+				surplus := v - uint64(leaf.Size())
+				ok := true
+				for _, e := range chain {
+					n := uint64(e.Size()) + surplus
+					if n > 0xffffffff {
+						ok = false
+						break
+					}
+					n32 := uint32(n)
+					e.ForceSize = &n32
+				}
+				if !ok {
+					continue
+				}
+				out = append(out, corpus.Seed{Name: fmt.Sprintf("%s#inflated-leaf%v=%d", sd.Name, path, v), Kind: "crafted", Type: t, Data: mut.Serialize(es)})
+			}
 		}
 	}
 	return out
